@@ -1,6 +1,6 @@
 """C06 — Map read/write round-trips every field and is byte-stable."""
 from ..extract import AnalysisBroken
-from ..facts import fmt_term
+from ..facts import fmt_term, CALLS
 from ..flow import Engine, Summaries
 from ..report import ok, bad
 from ..rules_layout import r_layout
@@ -50,6 +50,16 @@ def version_and_trim(F, S):
         out.append(ok("R-WRITESET", inst, fn.loc(fn.body), fn.qn, "trimming changes tilesetSources only", "write set {tilesetSources}"))
     else:
         out.append(bad("R-WRITESET", inst, fn.loc(fn.body), fn.qn, "trimming changes tilesetSources only", "write set %s" % sorted(w)))
+    # order-preserving removal: erase(remove_if(...)) - partition-style algorithms reorder the survivors
+    algos = sorted({(nd.get("fq") or "") for nd in fn.nodes if nd["k"] in CALLS and (nd.get("fq") or "").startswith("std::") and
+                    (nd.get("fq") or "").split("::")[-1] in ("remove_if", "remove", "partition", "stable_partition", "remove_copy_if", "copy_if", "sort", "unique")})
+    inst = M + "::TrimTilesetSources#order-preserving"
+    if algos in (["std::remove_if"], ["std::stable_partition"]):
+        out.append(ok("R-SIB", inst, fn.loc(fn.body), fn.qn, "the surviving sources keep their relative order (tile mappings refer to them by position)", algos[0]))
+    elif algos:
+        out.append(bad("R-SIB", inst, fn.loc(fn.body), fn.qn, "the surviving sources keep their relative order (tile mappings refer to them by position)", "uses %s" % ", ".join(algos)))
+    else:
+        raise AnalysisBroken("TrimTilesetSources: removal algorithm not recognised")
     # the predicate removed is IsEmpty()
     lam = [f for f in F.functions.values() if f.d.get("lambda") and "Map.cpp" in f.file]
     good = False
@@ -154,4 +164,6 @@ def check(F, run, tier):
     hi = max(e["value"] for e in en["enumerators"])
     run.add(r_guard_exact(F, Engine(F, S), sc, [(P(sc, 0), ("const", hi))]))
     run.add(version_and_trim(F, S))
+    from . import c07
+    run.add([o for o in c07.tileset_sources(F, S) if "marker" in o.instance])
     run.add(run_witnesses(F, "C06", WITNESSES))
